@@ -1152,6 +1152,13 @@ func TrickyShapes() []*Shape {
 		// a struct-mapped root whose map[string]any field holds a recursive map-based object
 		scope("Holder", &Shape{Kind: KObject, ID: "Holder", Struct: "P11", Props: []*Prop{p("m", ref("Node")), p("n", &Shape{Kind: KInt})}},
 			obj("Node", p("v", &Shape{Kind: KInt}), p("next", ref("Node")))),
+		// struct-mapped objects nested by value three levels deep (directly and through a reference), defaults
+		// only on the innermost level: an absent middle object is materialised from the defaults below it
+		scope("Top", &Shape{Kind: KObject, ID: "Top", Struct: "P12", Props: []*Prop{p("mid", &Shape{Kind: KObject, ID: "MidInline", Struct: "P3", Props: []*Prop{
+			p("inner", ref("Leaf")), p("pinner", ref("Leaf")), p("n", &Shape{Kind: KInt})}}), p("other", ref("Mid")), p("tag", str())}},
+			&Shape{Kind: KObject, ID: "Mid", Struct: "P3", Props: []*Prop{p("inner", ref("Leaf")), p("pinner", ref("Leaf")), p("n", &Shape{Kind: KInt})}},
+			&Shape{Kind: KObject, ID: "Leaf", Struct: "P1", Props: []*Prop{{Name: "a", T: &Shape{Kind: KInt}, Default: jsonText(int64(10))}, {Name: "b", T: str(), Default: jsonText("fast")},
+				p("c", &Shape{Kind: KFloat}), p("d", &Shape{Kind: KBool})}}),
 		// two-property recursive object: the shorthand must not apply
 		scope("N", obj("N", p("v", &Shape{Kind: KInt}), p("next", ref("N")))),
 	}
